@@ -1053,3 +1053,10 @@ M('c07-buffer-cut-mismatch', 'C07', "            self._internal_buffer[size:],\n
 M('c07-no-rewind-on-backward', 'C07', "            # (I always know how to go back to zero). Otherwise, I just continue from where I am.\n            self.seek(0)", "            # (I always know how to go back to zero). Otherwise, I just continue from where I am.\n            pass", 'C07.R8', U)
 T('c07-twin-split-two-statements', 'C07', "        to_return, self._internal_buffer = (\n            self._internal_buffer[:size],\n            self._internal_buffer[size:],\n        )", "        to_return = self._internal_buffer[:size]\n        self._internal_buffer = self._internal_buffer[size:]", U)
 T('c07-twin-new-pos-commuted', 'C07', "        new_pos = self._offset + target\n", "        new_pos = target + self._offset\n", U)
+
+# ------------------------------------------------------------------------------------------------ C15 (round 2)
+M('c15-dump-wrong-name', 'C15', "        sqlite_temp_loc = Path(temp_dir_name) / 'packs.idx'", "        sqlite_temp_loc = Path(temp_dir_name) / 'packs.idx.dump'", 'C15.R2', B)
+M('c15-rsync-ignore-errors', 'C15', "            '-azh',\n            '--no-whole-file',\n        ]", "            '-azh',\n            '--no-whole-file',\n            '--ignore-errors',\n        ]", 'C15.R5', B)
+M('c15-rsync-size-only', 'C15', "            '-azh',\n            '--no-whole-file',\n        ]", "            '-azh',\n            '--no-whole-file',\n            '--size-only',\n        ]", 'C15.R5', B)
+M('c15-packs-append', 'C15', "    manager.call_rsync(packs_path, path, link_dest=prev_backup)", "    manager.call_rsync(packs_path, path, link_dest=prev_backup, extra_args=['--append'])", 'C15.R5', B)
+T('c15-twin-dump-name-from-path', 'C15', "        sqlite_temp_loc = Path(temp_dir_name) / 'packs.idx'", "        sqlite_temp_loc = Path(temp_dir_name) / sqlite_path.name", B)
